@@ -420,7 +420,7 @@ def run_check(prop: str, sim: typing.Any, tier: str, seed: int, workers: int, re
         for sig, v in sorted(new_by_sig.items()):
             log("violation %s in %s: %s" % (sig, v["case_label"], str(v.get("detail"))[:600]))
             case = v["case"]
-            small, _ = minimise(sim, pool, prop, tier, case, sig, int(os.environ.get("VERIF_MINIMISE_RUNS", "120")), log)
+            small, _ = minimise(sim, pool, prop, tier, case, sig, int(os.environ.get("VERIF_MINIMISE_RUNS", getattr(sim, "MINIMISE_RUNS", 120))), log)
             # confirm the minimised case once more on a fresh worker before reporting it
             detail = v.get("detail")
             try:
